@@ -19,13 +19,14 @@ import Hpbf.Driver6
 import Hpbf.Driver7
 import Hpbf.Driver8
 import Hpbf.Driver9
+import Hpbf.Driver10
 
 open Hpbf
 
 partial def loop (h : IO.FS.Stream) (out : IO.FS.Stream) : IO Unit := do
   let line ← h.getLine
   if line.isEmpty then return ()
-  let reply := Driver9.handle (line.trimAscii.toString)
+  let reply := Driver10.handle (line.trimAscii.toString)
   out.putStrLn reply
   out.flush
   loop h out
